@@ -212,10 +212,27 @@ def _mesh_cex(name, dim, what):
 
 
 def replay(cex):
-    if "mesh" in cex.get("inputs", {}):
+    i = cex.get("inputs", {})
+    if "mesh" in i:
         return c01.replay(cex)
-    print(cex.get("what"))
-    return 1
+    # get_mesh clauses: re-run the real get_mesh on the stored parameters
+    info = core.load_model_info(i["model"])
+    direct_model.float = float
+    W.np = np
+    mesh = direct_model.get_mesh(info, dict(i["pars"]), dim=i["dim"])
+    bad = False
+    for par, (v, d, w) in zip(info.parameters.call_parameters, mesh):
+        if par.type != "orientation":
+            continue
+        n = i["pars"].get(par.id + "_pd_n", 0)
+        width = i["pars"].get(par.id + "_pd", 0.0)
+        one_point = i["dim"] == "1d" or n < 2 or width == 0
+        if one_point and (list(d) != [0.0] or list(w) != [1.0]):
+            bad = True
+        if v != i["pars"].get(par.id, par.default) or (len(d) > 1 and abs(np.mean(d)) > 1e-9):
+            bad = True
+        print(par.id, "value", v, "jitter", list(d), "weights", list(w))
+    return 1 if bad else 0
 
 
 def _dispatch(item):
